@@ -90,7 +90,8 @@ CLAIMED = {
              "bytes, key phase and ciphertext are recovered exactly) and C02_one_rtt_datagram (handed to the session that holds the sender's keys, the datagram adds exactly "
              "the data of its STREAM frames, in order, with its time and direction, to the session's output); Handshake and Initial packets: C02_handshake_packet_extracted, C02_initial_packet_extracted (long "
              "header with any connection IDs, token, Length varint of any width, followed by any coalesced packets: every field, packet-number bytes and ciphertext "
-             "recovered, the rest handed back); 0-RTT packets: C02_zero_rtt_packet_extracted, C02_zero_rtt_datagram (client early keys). NOT proved: which early keys are "
+             "recovered, the rest handed back); 0-RTT packets: C02_zero_rtt_packet_extracted, C02_zero_rtt_datagram (client early keys); hellos in the CRYPTO stream: C02_quic_client_hello, C02_quic_server_hello (client random and first-offered / selected "
+             "suite are exactly what the RFC 8446 encoding carries). NOT proved: which early keys are "
              "installed (open finding), "
              "CID matching, Retry: "
              "decided by an independent RFC 9000/9001 reference sender run through the implementation over every dimension of the quantifier, with the executable session model "
